@@ -8,6 +8,8 @@ or abort is directly the failing input; every returned error must be a *gobl.Err
 documented key that serialises.  Sites recorded in findings/C14.json are matched narrowly by
 (stage, top /repo frame function, mutation kind, member class)."""
 import glob
+import shutil
+import json
 import re
 import subprocess
 import tempfile
@@ -394,6 +396,87 @@ def run_corpus(c):
         judge_records(c, recs, "corpus " + os.path.basename(res["file"]))
 
 
+def summary_combos(c, repo):
+    """Payments whose lines carry hand-supplied tax summaries, and invoices whose preceding references do:
+    every ordered pair (and some triples) of rate groups that differ in ONE respect (surcharge present or not,
+    percentage, extension, country, exempt), inside one category or in two - what tax.Total.Merge /
+    Total.Calculate see when the rows of different documents meet.  Whole pipeline, no panic allowed."""
+    try:
+        base = json.load(open(os.path.join(repo, "examples", "es", "out", "payment-with-tax.json")))
+        inv = json.load(open(os.path.join(repo, "examples", "es", "out", "invoice-es-es.json")))
+    except Exception as e:
+        c.report("summary combos: example documents missing: %s" % e, {"machinery": "examples/es/out"}, no_input=True)
+        return
+    def rate(pct="21.0%", sur=None, ext=None, country=None, key=None, base_="100.00"):
+        r = {"base": base_}
+        if key:
+            r["key"] = key
+        if country:
+            r["country"] = country
+        if ext:
+            r["ext"] = ext
+        if pct:
+            r["percent"] = pct
+            r["amount"] = "21.00"
+        if sur:
+            r["surcharge"] = {"percent": sur, "amount": "5.20"}
+        return r
+    rates = [rate(), rate(sur="5.2%"), rate(sur="1.4%"), rate(pct="10.0%"), rate(pct="10.0%", sur="1.4%"), rate(pct=None, key="exempt"),
+             rate(pct=None, key="exempt", ext={"es-tbai-exemption": "E1"}), rate(ext={"es-tbai-product": "services"}), rate(country="PT"),
+             rate(country="PT", sur="5.2%"), rate(key="standard"), rate(key="standard", sur="5.2%")]
+    def summary(rs, cat="VAT", retained=False):
+        ct = {"code": cat, "rates": rs, "amount": "21.00"}
+        if retained:
+            ct["retained"] = True
+        if any("surcharge" in r for r in rs):
+            ct["surcharge"] = "5.20"
+        return {"categories": [ct], "sum": "21.00"}
+    sums = [summary([r]) for r in rates] + [summary([rates[0], rates[1]]), summary([rates[1], rates[0]]), summary([rates[0]], "IRPF", True),
+                                             summary([rates[1]], "IRPF", True), {"categories": [], "sum": "0.00"}, {"sum": "0.00"}]
+    seqs = [(a, b) for a in range(len(sums)) for b in range(len(sums))]
+    rng = c.rng
+    seqs += [tuple(rng.randrange(len(sums)) for _ in range(3)) for _ in range(120)]
+    tmpd = os.path.join(WORK, "c14combos")
+    shutil.rmtree(tmpd, ignore_errors=True)
+    os.makedirs(tmpd)
+    files = []
+    for n, seq in enumerate(seqs):
+        for how in ("payment", "preceding"):
+            if how == "payment":
+                env = json.loads(json.dumps(base))
+                line0 = env["doc"]["lines"][0]
+                env["doc"]["lines"] = []
+                for i, k in enumerate(seq):
+                    ln = json.loads(json.dumps(line0))
+                    ln["i"] = i + 1
+                    ln["document"]["tax"] = sums[k]
+                    env["doc"]["lines"].append(ln)
+                env["doc"].pop("tax", None)
+            else:
+                env = json.loads(json.dumps(inv))
+                env["doc"]["preceding"] = [{"type": "standard", "series": "S", "code": "%d" % (i + 1), "issue_date": "2021-01-01", "tax": sums[k]}
+                                           for i, k in enumerate(seq)]
+            f = os.path.join(tmpd, "%s-%04d.json" % (how, n))
+            json.dump({"doc": "summary-combos", "kind": how, "path": "/".join(map(str, seq)), "data": json.dumps(env)}, open(f, "w"))
+            files.append(f)
+    for i in range(0, len(files), 400):
+        rc, out, err = harness("c14files", *files[i:i + 400], timeout=900)
+        if rc != 0:
+            c.report("summary combos: run failed: " + err[-400:], {"machinery": "c14files"}, no_input=True)
+            return
+        for res in jlines(out):
+            src = json.load(open(res["file"]))
+            c.count("summary-combos", 1, (src["kind"], src["path"]))
+            recs = []
+            for o in res["outs"]:
+                if o["result"] in ("panic", "baderr"):
+                    recs.append({"type": o["result"], "stage": o["stage"], "func": o.get("func", ""), "msg": o.get("msg", ""),
+                                 "key": o.get("key", ""), "doc": "summary-combos " + src["kind"], "path": src["path"],
+                                 "kind": src["kind"], "data": src["data"], "hex": ""})
+            judge_records(c, recs, "summary combos (%s, summaries %s)" % (src["kind"], src["path"]))
+    shutil.rmtree(tmpd, ignore_errors=True)
+
+
 def run(c):
     quick = c.tier == "quick"
     if not std_builds(c, cli=True):
@@ -415,6 +498,7 @@ def run(c):
     # model vs implementation on the cores that are callable from outside (header validation)
     tie_cores(c, quick)
     run_corpus(c)
+    summary_combos(c, REPO)
     serve_requests(c, REPO)
     seed = c.seed
     nrandom = 6000 if quick else 2000000
